@@ -91,6 +91,22 @@ class FakeSpec(Sym):
         return f"Specifier({self})"
 
 
+class FakeSet(Sym):
+    """Stand-in for a one-clause packaging.specifiers.SpecifierSet (iteration and len only)."""
+
+    def __init__(self, specs):
+        self.specs = list(specs)
+
+    def sym_iter(self):
+        return list(self.specs)
+
+    def sym_len(self):
+        return len(self.specs)
+
+    def __repr__(self):
+        return f"SpecifierSet({','.join(map(str, self.specs))})"
+
+
 # ------------------------------------------------------------------ text-shape grammar
 def shapes():
     """(label, operator, version text) — finite grammar of valid PEP 440 specifier clauses."""
@@ -174,9 +190,12 @@ class PkgSpecRunner:
         it.max_steps = 2_000_000
         it.opaque_calls["Version"] = self._version
         self.mod = it.module("dep_logic.specifiers")
-        if "_from_pkg_specifier" not in self.mod.ns:
-            raise AnalysisError("anchor dep_logic.specifiers:_from_pkg_specifier missing")
-        self.fn = self.mod.ns["_from_pkg_specifier"]
+        # the per-clause converter is a private helper: when it has been renamed / inlined, the same table is derived through the
+        # public from_specifierset() on one-clause sets (the fold with the universal range is the identity by C01)
+        self.fn = self.mod.ns.get("_from_pkg_specifier")
+        self.pub = self.mod.ns.get("from_specifierset")
+        if self.fn is None and self.pub is None:
+            raise AnalysisError("anchor dep_logic.specifiers:from_specifierset missing")
         self.Range = it.resolve(self.mod.ns["RangeSpecifier"])
         self.Union = it.resolve(self.mod.ns["UnionSpecifier"])
         self.Arb = it.resolve(self.mod.ns["ArbitrarySpecifier"])
@@ -191,7 +210,10 @@ class PkgSpecRunner:
         it = self.it
         it.trace.clear()
         try:
-            r = it.call(self.fn, [FakeSpec(op, text)], {})
+            if self.fn is not None:
+                r = it.call(self.fn, [FakeSpec(op, text)], {})
+            else:
+                r = it.call(self.pub, [FakeSet([FakeSpec(op, text)])], {})
         except PyRaise as e:
             exc = e.exc
             name = exc.cls.name if isinstance(exc, (AObj, BuiltinExcValue)) else repr(exc)
@@ -200,7 +222,7 @@ class PkgSpecRunner:
 
     def _path(self):
         return [f"L{ln}={'T' if c is True else 'F' if c is False else c}" for fn, ln, c in self.it.trace
-                if fn.endswith("_from_pkg_specifier")]
+                if fn.startswith("dep_logic.specifiers:")]
 
     def _rng(self, r):
         def k(v):
